@@ -16,16 +16,35 @@ func (e *Engine) inputName(st *State, name string) string {
 	return fmt.Sprintf("%s#%d", name, len(st.inputs))
 }
 
+// concrete replay inside the engine: intrinsics return the recorded values (used to validate the
+// translator against native execution and to debug unreproduced counterexamples).
+func (e *Engine) nextConcrete(st *State) (ReplayInput, bool) {
+	if e.concrete == nil {
+		return ReplayInput{}, false
+	}
+	i := len(st.inputs)
+	if i < len(e.concrete) {
+		return e.concrete[i], true
+	}
+	return ReplayInput{}, true
+}
+
 func registerIntrinsics(m map[string]modelFn) {
 	m[zzPkg+"Byte"] = func(e *Engine, st *State, c *callCtx) {
 		n := e.inputName(st, e.argString(st, c.args[0]))
 		v := e.ctx.Var(n, 8)
+		if ci, ok := e.nextConcrete(st); ok {
+			v = e.ctx.BV(8, uint64(ci.Int))
+		}
 		e.recordInput(st, n, "byte", 8, []*Term{v})
 		e.finish(st, c, v)
 	}
 	m[zzPkg+"Bool"] = func(e *Engine, st *State, c *callCtx) {
 		n := e.inputName(st, e.argString(st, c.args[0]))
 		v := e.ctx.Var(n, 0)
+		if ci, ok := e.nextConcrete(st); ok {
+			v = e.ctx.Bool(ci.Int != 0)
+		}
 		e.recordInput(st, n, "bool", 0, []*Term{v})
 		e.finish(st, c, v)
 	}
@@ -33,6 +52,9 @@ func registerIntrinsics(m map[string]modelFn) {
 		return func(e *Engine, st *State, c *callCtx) {
 			n := e.inputName(st, e.argString(st, c.args[0]))
 			v := e.ctx.Var(n, w)
+			if ci, ok := e.nextConcrete(st); ok {
+				v = e.ctx.BV(w, uint64(ci.Int))
+			}
 			e.recordInput(st, n, kind, w, []*Term{v})
 			e.finish(st, c, v)
 		}
@@ -47,8 +69,16 @@ func registerIntrinsics(m map[string]modelFn) {
 		k := e.argInt(st, c.args[1], "zz.Bytes length")
 		terms := make([]*Term, k)
 		slots := make([]Value, k)
+		ci, conc := e.nextConcrete(st)
 		for i := range terms {
 			terms[i] = e.ctx.Var(fmt.Sprintf("%s[%d]", n, i), 8)
+			if conc {
+				bv := 0
+				if i < len(ci.Bytes) {
+					bv = ci.Bytes[i]
+				}
+				terms[i] = e.ctx.BV(8, uint64(bv))
+			}
 			slots[i] = terms[i]
 		}
 		e.recordInput(st, n, "bytes", 8, terms)
@@ -60,8 +90,16 @@ func registerIntrinsics(m map[string]modelFn) {
 		k := e.argInt(st, c.args[1], "zz.Str length")
 		terms := make([]*Term, k)
 		slots := make([]Value, k)
+		ci, conc := e.nextConcrete(st)
 		for i := range terms {
 			terms[i] = e.ctx.Var(fmt.Sprintf("%s[%d]", n, i), 8)
+			if conc {
+				bv := 0
+				if i < len(ci.Bytes) {
+					bv = ci.Bytes[i]
+				}
+				terms[i] = e.ctx.BV(8, uint64(bv))
+			}
 			slots[i] = terms[i]
 		}
 		e.recordInput(st, n, "bytes", 8, terms)
@@ -195,6 +233,9 @@ func registerIntrinsics(m map[string]modelFn) {
 			e.unsupported(st, fmt.Sprintf("zz.Observe of %T", iv.v))
 		}
 		st.observes = append(st.observes, observeRec{Name: name, Terms: terms, Str: isStr})
+		if e.concrete != nil {
+			fmt.Println(e.renderObserve(observeRec{Name: name, Terms: terms, Str: isStr}, nil))
+		}
 		e.finish(st, c, nil)
 	}
 	m[zzPkg+"Symbolic"] = func(e *Engine, st *State, c *callCtx) { e.finish(st, c, e.ctx.True) }
@@ -207,6 +248,15 @@ func (e *Engine) chooseModel(st *State, c *callCtx, name string, lo, hi int) {
 		panic(pathEnd{"empty choose"})
 	}
 	v := e.ctx.Var(name, 64)
+	if ci, ok := e.nextConcrete(st); ok {
+		cv := int(ci.Int)
+		if cv < lo || cv > hi {
+			cv = lo
+		}
+		e.recordInput(st, name, "choose", 64, []*Term{e.intVal(cv)})
+		e.finish(st, c, e.intVal(cv))
+		return
+	}
 	e.recordInput(st, name, "choose", 64, []*Term{v})
 	var alts []Alt
 	for i := lo; i <= hi; i++ {
@@ -222,8 +272,31 @@ func (e *Engine) chooseModel(st *State, c *callCtx, name string, lo, hi int) {
 }
 
 // checkAssert asks the solver for a counterexample to cond under the path condition.
+func (e *Engine) renderObserve(o observeRec, model map[string]uint64) string {
+	memo := map[*Term]uint64{}
+	if model == nil {
+		model = map[string]uint64{}
+	}
+	if o.Str {
+		b := make([]byte, len(o.Terms))
+		for i, t := range o.Terms {
+			b[i] = byte(e.ctx.Eval(t, model, memo))
+		}
+		return fmt.Sprintf("ZZ-OBS %s %x", o.Name, b)
+	}
+	t := o.Terms[0]
+	v := e.ctx.Eval(t, model, memo)
+	if t.w == 0 {
+		return fmt.Sprintf("ZZ-OBS %s %v", o.Name, v == 1)
+	}
+	return fmt.Sprintf("ZZ-OBS %s %d", o.Name, sext(v, t.w))
+}
+
 func (e *Engine) checkAssert(st *State, name string, cond *Term) {
 	e.stats.AssertsChecked++
+	if e.concrete != nil && cond.IsFalse() {
+		fmt.Printf("ZZ-ASSERT-FAIL %s\n", name)
+	}
 	if cond.IsTrue() {
 		return
 	}
